@@ -174,7 +174,7 @@ def tlc_model(srv, mode, cfg, nc, **kw):
                     workers=kw.pop("workers", JOBS), **kw)
 
 
-def model_check(c, srv, mode, depth, scenarios, invariants, nc=2, timeout=900):
+def model_check(c, srv, mode, depth, scenarios, invariants, nc=2, timeout=2400):
     """exhaustive exploration of the design level model (history hidden by VIEW); part of the evidence"""
     cfg = model_cfg(c, "mc_%s_%s.cfg" % (mode, srv.name), depth, scenarios, invariants, False)
     r = tlc_model(srv, mode, cfg, nc, timeout=timeout, coverage=False)
@@ -185,7 +185,7 @@ def model_check(c, srv, mode, depth, scenarios, invariants, nc=2, timeout=900):
     return r
 
 
-def behaviours(c, srv, mode, depth, scenarios, nc=2, simulate=None, seed=None, timeout=900, per_trace=3):
+def behaviours(c, srv, mode, depth, scenarios, nc=2, simulate=None, seed=None, timeout=2400, per_trace=3):
     """all operation sequences of the model up to `depth` (BFS) or random ones of that depth (`simulate` traces; TLC's
     simulator evaluates Emit on every successor of the last but one state, `per_trace` of them are kept per trace)"""
     cfg = model_cfg(c, "gen_%s_%s_%d.cfg" % (mode, srv.name, depth), depth, scenarios, ["RefConforms"], True)
